@@ -2,7 +2,10 @@ module verifharness
 
 go 1.26.8
 
-require github.com/blinklabs-io/gouroboros v0.0.0
+require (
+	github.com/blinklabs-io/gouroboros v0.0.0
+	golang.org/x/crypto v0.55.0
+)
 
 require (
 	filippo.io/edwards25519 v1.2.0 // indirect
@@ -21,7 +24,6 @@ require (
 	github.com/minio/sha256-simd v1.0.1 // indirect
 	github.com/utxorpc/go-codegen v0.19.2 // indirect
 	github.com/x448/float16 v0.8.4 // indirect
-	golang.org/x/crypto v0.55.0 // indirect
 	golang.org/x/sys v0.47.0 // indirect
 	google.golang.org/protobuf v1.36.12 // indirect
 )
